@@ -1,1 +1,2 @@
+pub mod reflect;
 pub mod spirv;
